@@ -158,11 +158,12 @@ func internalOut(out string) string {
 func customOut(g *protogen.GeneratedFile, method *protogen.Method) string {
 	ext := protoimpl.X.MessageOf(method.Desc.Options()).Interface()
 	customOutType := fmt.Sprintf("%v", proto.GetExtension(ext, gorums.E_CustomReturnType))
-	outType := method.Output.GoIdent
 	if customOutType != "" {
-		outType.GoName = customOutType
+		// The custom return type is a message of the package being generated,
+		// whichever package the reply type of the method is from.
+		return customOutType
 	}
-	return g.QualifiedGoIdent(outType)
+	return g.QualifiedGoIdent(method.Output.GoIdent)
 }
 
 func mapInternalOutType(g *protogen.GeneratedFile, services []*protogen.Service) (s map[string]string) {
